@@ -36,12 +36,24 @@ def lean_files_of(modules):
     return seen
 
 def audit(modules):
-    """forbidden tokens outside comments in every file the property's theorems depend on"""
+    """forbidden tokens outside comments in every file the property's theorems depend on, in EVERY model file (the
+    drivers execute them all) and in the drivers themselves; the single documented FFI declaration of the model driver
+    (the ICU oracle, Driver/Main.lean) is the one exception"""
     bad = []
-    for m in lean_files_of(modules):
-        f = os.path.join(LEAN, m.replace('.', '/') + '.lean')
+    files = [os.path.join(LEAN, m.replace('.', '/') + '.lean') for m in lean_files_of(modules)]
+    for sub in ('Upa/Impl', 'Upa/Spec', 'Upa/Gen', 'Driver'):
+        d = os.path.join(LEAN, sub)
+        if os.path.isdir(d): files += [os.path.join(d, f) for f in sorted(os.listdir(d)) if f.endswith('.lean')]
+    files.append(os.path.join(LEAN, 'Upa', 'Basic.lean'))
+    externs = 0
+    for f in dict.fromkeys(files):
+        if not os.path.exists(f): continue
         for i, line in enumerate(strip_comments(open(f).read()).splitlines()):
-            if FORBIDDEN.search(line): bad.append('%s:%d: %s' % (f, i + 1, line.strip()[:120]))
+            if FORBIDDEN.search(line):
+                if f.endswith(os.path.join('Driver', 'Main.lean')) and line.strip().startswith('@[extern "upa_idna_oracle"] opaque idnaRaw') and not re.search(r'sorry|admit|native_decide|implemented_by|unsafe ', line):
+                    externs += 1
+                    if externs == 1: continue
+                bad.append('%s:%d: %s' % (f, i + 1, line.strip()[:120]))
     return bad
 
 def theorems_of(module):
@@ -87,7 +99,18 @@ PRED_PROP = {'canon': 'C08', 'rp': 'C02', 'lk': 'C06', 'own': 'C06', 'ser': 'C06
 # is a broken correspondence (the theorems no longer transfer), not a failing input of the property itself
 RUNTIME_KINDS = {'C04': ('crash',), 'C18': ('config',), 'C19': ('race', 'threads'), 'C20': ('fault',)}
 
-def is_failing_input_for(pid, kind):
+# which operations exercise which property (an impl / spec divergence on another operation is a break of the model
+# correspondence, not a failing input of this property)
+OP_PROPS = {
+    'parse': 'C01 C02 C05 C08 C09 C10 C07', 'aparse': 'C01 C05 C09', 'aparseb': 'C01 C05 C09', 'aparsebg': 'C01 C05 C09', 'aparsesp': 'C01 C05 C09 C06',
+    'set': 'C03 C02 C05 C08 C10 C07', 'aset': 'C03 C05', 'dump': 'C05 C06 C03', 'probe': 'C05', 'obj': 'C05 C06',
+    'sp': 'C06 C16 C15 C10 C05', 'psp': 'C15 C16 C10 C06', 'host': 'C07 C10', 'idnahyp': 'C07',
+    'ipv4': 'C11 C07', 'ends': 'C11 C07', 'ipv4ser': 'C11', 'ipv6': 'C12 C07', 'ipv6ser': 'C12',
+    'penc': 'C14 C10', 'pencset': 'C14', 'pdec': 'C14 C10', 'utf': 'C10', 'cmp': 'C16 C10', 'member': 'C13',
+    'frompath': 'C17 C10', 'topath': 'C17', 'rt': 'C17',
+}
+
+def is_failing_input_for(pid, kind, op=None):
     """does a divergence of this kind exhibit a violation of property pid itself (then the replay is the failing
     input), or only a break of the correspondence its theorems rest on (then: no-failing-input-found)?"""
     k = kind.split(':')[0]
@@ -97,6 +120,9 @@ def is_failing_input_for(pid, kind):
         owner = PRED_PROP.get(kind.split(':')[1])
         # a false predicate of ANOTHER property is evidence against that one; for this one the correspondence broke
         return owner is None or owner == pid or pid in ('C01', 'C03', 'C05') and owner in ('C02', 'C05', 'C08', 'C09')
+    if k in ('impl', 'spec') and op:
+        t = op.split(' ')[0]
+        return t not in OP_PROPS or pid in OP_PROPS[t].split(' ')
     return True
 
 def compare_line(op, cpp, lean):
@@ -226,8 +252,18 @@ def bad_utf8(us):
     except (UnicodeDecodeError, ValueError):
         return True
 
+ACTIVE_FINDINGS = {}   # id -> set of properties, from known_findings.json 'findings' (filled in main)
+CURRENT_PID = [None]
+
 def known_class(op, kind):
-    """does this divergence fall into a listed (unfixed) known-finding class?  returns finding id or None"""
+    """does this divergence fall into the input class of a finding that is LISTED as unfixed in known_findings.json for
+    the property being checked?  returns finding id or None.  (A finding moved to 'fixed', or not listing this property,
+    suppresses nothing.)"""
+    k = _known_class(op, kind)
+    if k and k in ACTIVE_FINDINGS and CURRENT_PID[0] in ACTIVE_FINDINGS[k]: return k
+    return None
+
+def _known_class(op, kind):
     toks = op.split(' ')
     if toks[0] in ('sp', 'psp') and len(toks) >= 3:
         args = toks[3:]
@@ -362,8 +398,10 @@ def main():
     if os.path.isdir(cdir):
         for f in sorted(os.listdir(cdir)):
             corpus += [l for l in open(os.path.join(cdir, f)).read().split('\n') if l and not l.startswith('#')]
+    own_history = None
     if a.replay:
         lines = [l for l in open(a.replay).read().split('\n') if l and not l.startswith('#')]
+        if lines[:1] == ['RESET']: own_history, lines = lines, []    # a history of the pointer-graph replay (extra ownreplay)
         streams = []
     else:
         streams = cfg['streams'][tier]
@@ -378,6 +416,9 @@ def main():
     distinct = set()
     known_hits = {}
     tainted = set()
+    foreign = {}
+    CURRENT_PID[0] = pid
+    for f in load_known().get('findings', []): ACTIVE_FINDINGS[f['id']] = set(f.get('properties', []))
     if lines:
         cpp, rc, err, lean = runner.run(lines)
         runner.main_steps = runner.last_steps
@@ -404,11 +445,14 @@ def main():
             # an F3-class operation (char-typed ill-formed name / value stored raw) leaves the list — and the URL's
             # query — in a state the Standard-shaped column cannot follow: the rest of the case stays in the class
             # (the comparison with the code-shaped model stays in force)
-            if known_class(lines[i], 'spec') == 'F3': tainted.add(case_of[i][0])
-            if lines[i] == 'case': pass
             for (kind, detail) in res:
                 kf = known_class(lines[i], kind)
-                if not kf and case_of[i][0] in tainted and kind in ('spec', 'pred:lk'): kf = 'F3'
+                if kf == 'F3': tainted.add(case_of[i][0])      # this operation DID store a raw ill-formed string
+                if not kf and case_of[i][0] in tainted and kind in ('spec', 'pred:lk') and lines[i].split(' ')[0] in ('sp', 'psp', 'dump', 'obj', 'set'): kf = 'F3'
+                # a predicate that belongs to ANOTHER property is that property's business; the runtime properties rest on
+                # the model correspondence (impl) and their own observables only
+                if not kf and pid in RUNTIME_KINDS and kind.startswith('pred:') and PRED_PROP.get(kind.split(':')[1]) not in (None, pid):
+                    foreign[kind] = foreign.get(kind, 0) + 1; continue
                 if kf:
                     known_hits[kf] = known_hits.get(kf, 0) + 1; continue
                 kinds[kind] = kinds.get(kind, 0) + 1
@@ -424,7 +468,7 @@ def main():
             if s0 in first_hid and first_hid[s0][0] < i:
                 detail += '\nhidden state had diverged before, at: %s (%s)' % (readable(lines[first_hid[s0][0]]), first_hid[s0][2][:300])
             small = shrink(runner, ls, i - s, kind)
-            fi = is_failing_input_for(pid, kind)
+            fi = is_failing_input_for(pid, kind, lines[i])
             if not fi: detail += '\n(for property %s this is a break of the correspondence its theorems rest on, not an observed violation of the property itself)' % pid
             violations.append((kind, small, '%s\n%s' % (kind, detail[:3000]), fi))
             seen_cases.add(s0)
@@ -464,7 +508,7 @@ def main():
                     if r2: hit = (jj, r2[0], c2[jj]); break
                 if hit:
                     small = shrink(runner, aug[:hit[0] + 1], hit[0], hit[1])
-                    found = is_failing_input_for(pid, hit[1])
+                    found = is_failing_input_for(pid, hit[1], aug[hit[0]])
                     detail += '\nhidden state diverged at: %s\npublic manifestation (%s): %s' % (readable(ls[i - s]), hit[1], hit[2][:300])
                     break
             if small is None:
@@ -508,7 +552,7 @@ def main():
     # ---- 5. extra runtime checks of this property (C18 configurations, C19 threads, C20 faults)
     for name in extra:
         import extra as X
-        r = getattr(X, name)(tier, seed, runner, lines)
+        r = getattr(X, name)(tier, seed, runner, own_history if (own_history and name == 'ownreplay') else lines)
         cov[name] = r.get('coverage', {})
         if name == 'configs':
             # level translation_validation: its own keys at the top level of coverage
@@ -538,6 +582,7 @@ def main():
     # divergences that fell into a listed finding's input class in this run, whatever the property (they are never
     # reported as violations; for the properties the finding lists, the KNOWN-FINDING line above stands for them)
     cov['known_class_divergences_suppressed'] = dict(sorted(known_hits.items()))
+    if foreign: cov['predicates_of_other_properties_false'] = dict(sorted(foreign.items()))
     cov['fixed_findings'] = [x for x in kf.get('fixed', []) if pid in x.get('properties', [])]
     finish()
 
@@ -560,8 +605,14 @@ if __name__ == '__main__':
             f.write('# property %s  kind check-error\n# the check did not complete: %s\n' % (pid, repr(e)[:500]))
             for l in tb.split('\n'): f.write('# ' + l + '\n')
         evp = os.path.join(os.environ.get('VERIF_EVIDENCE_DIR', os.path.join(VERIF, 'evidence')), pid + '.json')
+        # no measurement was completed: an evidence file with honest contents could not satisfy the schema (its counts
+        # have minimum 1); the older file must not stand, so there is NO evidence after such a run
         try:
-            write_json(evp, {'property_id': pid, 'tier': os.environ.get('VERIF_TIER', 'quick') if os.environ.get('VERIF_TIER') in ('quick', 'thorough') else 'quick',
+            if os.path.exists(evp): os.remove(evp)
+        except OSError:
+            pass
+        try:
+            if False: write_json(evp, {'property_id': pid, 'tier': os.environ.get('VERIF_TIER', 'quick') if os.environ.get('VERIF_TIER') in ('quick', 'thorough') else 'quick',
                              'seed': int(os.environ.get('VERIF_SEED', '1')), 'level': P.PROPS.get(pid, {}).get('level', 'other'),
                              'coverage': {'explanation': 'the check did not complete: ' + repr(e)[:300]}, 'wall_s': 0.0, 'violations': 1})
         except Exception:
